@@ -37,9 +37,14 @@ ValAddFaceV(s, n, vs) ==
   IF Len(vs) # n THEN [s EXCEPT !.ret = -1] ELSE AddFaceV(s, vs)
 TetAddFace(s, hes, check) == ValAddFace(s, 3, hes, check)
 TetAddFaceV(s, vs)        == ValAddFaceV(s, 3, vs)
+(* with topology check the four halffaces must span exactly four distinct   *)
+(* vertices (repaired behaviour, /repo f2585d5: the generic closedness test alone *)
+(* accepts both halffaces of two vertex-disjoint triangles)                  *)
 TetAddCell(s, hfs, check) ==
   IF Len(hfs) # 4 THEN [s EXCEPT !.ret = -1]
   ELSE IF \E i \in 1 .. 4 : Len(At(s.faces, Full(hfs[i]))) # 3 THEN [s EXCEPT !.ret = -1]
+  ELSE IF check /\ Cardinality(UNION {Rng(MapSeq(LAMBDA h : From(s, h), At(s.faces, Full(hfs[i])))) : i \in 1 .. 4}) # 4
+       THEN [s EXCEPT !.ret = -1]
   ELSE AddCell(s, hfs, check)
 
 (* find_halfedge: first outgoing halfedge of a that ends in b (needs the   *)
